@@ -338,7 +338,9 @@ def compileStmt (I : Interp ν) : Stmt ν → Res (Interp ν)
     -- begin_function pushes an empty chunk and makes it current; a new scope holds the parameters
     let cs0 : CS ν :=
       { I.view with code := [], scopeCur := d.params.map fun p => [p],
-                    chunkNames := I.chunks.map Chunk.name ++ [d.name] }
+                    chunkNames := I.chunks.map Chunk.name ++ [d.name],
+                    -- the name is registered before the body is compiled (usable as a value in it)
+                    functions := I.functions ++ [(d.name, false)] }
     (compileFnBody d cs0).bind fun cs =>
       .ok { I with chunks := I.chunks ++ [{ name := d.name, code := cs.code }], constants := cs.constants,
                    nCallArgs := cs.nCallArgs, functions := I.functions ++ [(d.name, false)] }
